@@ -143,7 +143,7 @@ impl Prop for C10 {
         "C10"
     }
     fn rule_text(&self) -> String {
-        "case = a switch with 1-6 cases (random boolean expressions over key / key-history / key-timing lt,gt / input / input-history / layer / base-layer leaves, nesting up to depth 8, break / fallthrough, each case a distinct marker key) and a fork, on a 2-layer config with plain keys, a key that is a custom action only (mouse button / message), a layer-while-held key, layer-switch keys and a virtual key; a random timed history builds up state (keys held, history ages incl. the lossy ranges 255/256, 2303/2304), then the switch / fork key is pressed. A 60-line reference evaluator of the s-expression over a reference state predicts the markers. non-trivial = at least one leaf of every kind present was evaluated against a non-empty state; distinct = (expression, truth pattern of the cases) hash.".into()
+        "case = a switch with 1-6 cases (random boolean expressions over key / key-history / key-timing lt,gt / input / input-history / layer / base-layer leaves, nesting up to depth 8, break / fallthrough, each case a distinct marker key) and a fork, on a 2-layer config with plain keys, a key that is a custom action only (mouse button / message), a layer-while-held key, layer-switch keys and a virtual key; a random timed history builds up state (keys held, history ages incl. the lossy ranges 255/256, 2303/2304), then the switch / fork key is pressed; 'fork-macro' population: the fork's trigger key is held by a running macro. A 60-line reference evaluator of the s-expression over a reference state predicts the markers. non-trivial = at least one leaf of every kind present was evaluated against a non-empty state; distinct = (expression, truth pattern of the cases) hash.".into()
     }
     fn runs(&self, tier: Tier) -> u64 {
         match tier {
@@ -165,6 +165,29 @@ impl Prop for C10 {
         }
         let swt = l(sw).to_text();
         let fork_trig = *r.pick(&["x", "y", "z", "1"]);
+        if r.chance(100) {
+            // 'fork-macro' population: the fork's trigger key is held down by a running macro, not
+            // by a physical key: it is active all the same
+            let (pfx, trig) = *r.pick(&[("A", "lalt"), ("S", "lsft"), ("C", "lctl")]);
+            let hold = *r.pick(&[100u64, 200]);
+            let mut case = Case { prop: "C10".into(), seed, ..Default::default() };
+            case.cfg = format!(
+                "(defcfg delegate-to-first-layer yes)\n(defsrc a b c d e f s g h)\n(defvirtualkeys vk1 1)\n(deflayer l0 x y z (layer-while-held l1) (layer-switch l1) (layer-switch l0) (switch () f1 break) (fork f7 f8 ({trig})) (macro {pfx}-(x {hold} y)))\n(deflayer l1 _ _ _ _ _ _ _ _ _)\n"
+            );
+            let (g, h) = (oscode_of("g"), oscode_of("h"));
+            let mut ops = vec![Op::Gap(2), Op::Press(h), Op::Gap(3), Op::Release(h)];
+            // before / in the middle of / after the macro's hold
+            let wait = *r.pick(&[10u64, 40, hold / 2, hold - 20, hold + 60, hold + 150]);
+            ops.push(Op::Gap(wait as u32));
+            ops.push(Op::Press(g));
+            ops.push(Op::Gap(20));
+            ops.push(Op::Release(g));
+            ops.push(Op::Gap((hold + 200) as u32));
+            case.ops = ops;
+            case.set("min_cfg", 0);
+            case.set("min_ops", 0);
+            return case;
+        }
         let mut case = Case { prop: "C10".into(), seed, ..Default::default() };
         // c is either a plain key or a key whose action is a custom action only (it is an active
         // *input* while held although it holds no key)
